@@ -61,6 +61,8 @@ def make_items():
     items.append(('samp-tid2', 3, tuple(WORDS[4:8]), None))
     # other records of the same thread between the header and the data records / between two data records
     items.append(('samp-mixed', 7, tuple(WORDS[2:10]), None))
+    # a deep stack: 1000 frames announced, 1002 words supplied
+    items.append(('samp', 1000, tuple(0x1000 + (i * 37) % 0x2100 for i in range(1002)), None))
     return items
 
 
@@ -172,10 +174,10 @@ def judge_permutation(addr_uuid_set, perm, sample_idx):
 class C15(Check):
     pid = 'C15'
     level = 'model_checking'
-    rule = ('all histories of <=3 (quick) / <=4 (thorough) items over 34 item kinds: image announcements (4 addresses incl. adjacent '
+    rule = ('all histories of <=3 (quick) / <=4 (thorough) items over 35 item kinds: image announcements (4 addresses incl. adjacent '
             '0x2000/0x2001, x 2 uuids so that re-announcements with another identity occur), 4 launch windows with nested '
             'map/shared-cache records (cache above, below and between the images), samples with header count {0,1,3,4,5,9,14} x {0,1,2(+)} data records whose words are a-1, a, '
-            'a+1 for every load address plus 0 and 2^64-1, a sample without the user-stack flag, a sample on a second thread, a sample with thread-data and unrelated records between its header and data records; '
+            'a+1 for every load address plus 0 and 2^64-1, a sample without the user-stack flag, a sample on a second thread, a sample with thread-data and unrelated records between its header and data records, a 1000-frame sample; '
             'through TracesParser+CallstacksParser (all histories) and through PyKdebugParser.callstacks on a v2 dump (histories '
             '<=2 quick / <=3 thorough). Plus all alternating histories announcement-sample-announcement-sample (depth 4) over every announcement and the samples with >=4 frames. Plus: for every set of <=4 distinct images all permutations of announcement order give '
             'identical attribution. Reference: linear scan over the list of announced (address, uuid), first identity wins. '
